@@ -147,7 +147,7 @@ func record(c Case, want Expect) {
 var lineProp = vp.Register(vp.Prop[Case]{
 	Kind: "c07.line", Base: 100000,
 	Gen: func(t *rapid.T) Case {
-		if rapid.IntRange(0, 1499).Draw(t, "vast") == 0 {
+		if rapid.IntRange(0, map[bool]int{false: 1499, true: 9999}[vp.Thorough()]).Draw(t, "vast") == 0 {
 			return Case{Line: vp.S(gen.HostsLineVast().Draw(t, "vastline"))}
 		}
 		return Case{Line: vp.S(gen.HostsLine().Draw(t, "line"))}
